@@ -8,7 +8,9 @@
  *     linear    NEW = Tt + (depth - zt) * ((Tb - Tt) / (zb - zt))     between the local top zt and bottom zb of the
  *               model's range clipped to the feature, Tt/Tb < 0 meaning the adiabatic temperature at zt/zb,
  *               and NEW = Tt for a range thinner than 10 eps.
- * Selected by -DFAM=<family> -DKIND_UNIFORM / KIND_ADIABATIC / KIND_LINEAR.
+ *     chapman   NEW = Tt + (q/k) (depth - zt) - A/(2k) (depth - zt)^2   with zt the top of the model's range clipped to
+ *               the feature, q the top heat flux, k the conductivity, A the heat production; Tt < 0 = adiabatic at zt.
+ * Selected by -DFAM=<family> -DKIND_UNIFORM / KIND_ADIABATIC / KIND_LINEAR / KIND_CHAPMAN.
  */
 #include "spec.h"
 #define CAT3_(a, b, c) a##b##c
@@ -19,6 +21,8 @@
 #define MODEL Adiabatic
 #elif defined(KIND_LINEAR)
 #define MODEL Linear
+#elif defined(KIND_CHAPMAN)
+#define MODEL Chapman
 #endif
 #define PASTE_(a, b) a##b
 #define PASTE(a, b) PASTE_(a, b)
@@ -64,6 +68,12 @@ __CPROVER_ensures(this_ == g_model_max_surface ==> SAMEL(__CPROVER_return_value.
 #define TB (this_->bottom_temperature < 0.0 ? ADIAB(ZB) : this_->bottom_temperature)
 #define SLOPE_TERM ((FPXA(ZB - ZT) < 10.0 * DBL_EPSILON) ? 0.0 : FPX((depth - ZT) * ((TB - TT) / (ZB - ZT))))
 #define NEWT FPXA(TT + SLOPE_TERM)
+#elif defined(KIND_CHAPMAN)
+#define WORLDP (this_->base_.world)
+#define ZT (feature_min_depth < MINL ? MINL : feature_min_depth)
+#define ADIAB(z) FPX(WORLDP->potential_mantle_temperature * exp(((WORLDP->thermal_expansion_coefficient * gravity_norm) / WORLDP->specific_heat) * z))
+#define TT (this_->top_temperature < 0.0 ? ADIAB(ZT) : this_->top_temperature)
+#define NEWT FPXA(TT + (this_->top_heat_flux / this_->thermal_conductivity) * (depth - ZT) - this_->heat_production_per_unit_volume / (2. * this_->thermal_conductivity) * (depth - ZT) * (depth - ZT))
 #endif
 
 double MCONTRACT(struct MTYPE *this_, struct Point3 *position, struct Objects_NaturalCoordinate *natural, double depth,
@@ -85,7 +95,7 @@ void MHARNESS(void)
 {
   struct MTYPE m; struct Point3 p; struct Objects_NaturalCoordinate nat;
   double depth, g, t, fmin, fmax;
-#if defined(KIND_LINEAR)
+#if defined(KIND_LINEAR) || defined(KIND_CHAPMAN)
   struct World w;
   m.base_.world = &w;
 #endif
